@@ -374,6 +374,10 @@ def run(ctx):
                 layouts = {
                     'range-first': [[[e], [2.0], [3.0]], R3()],
                     'range-last': [R3(), [[1.0], [2.0], [e]]],
+                    'behind-text': [[['tx'], [2.0], [3.0]],
+                                    [[e], [2.0], [3.0]]],
+                    'behind-blank-3rd': [[[None], [2.0], [3.0]], R3(),
+                                         [[e], [2.0], [3.0]]],
                 }
             elif name == 'NPV':
                 layouts = {
